@@ -84,7 +84,8 @@ type MdnsManager struct {
 
 	mux,
 	muxAnnounced,
-	muxReport sync.Mutex
+	muxReport,
+	muxSetup sync.Mutex // used for mdnsProvider, report and autoaccept
 }
 
 func shortenString(s string, maxLen int) string {
@@ -96,6 +97,41 @@ func shortenString(s string, maxLen int) string {
 		maxLen--
 	}
 	return s[:maxLen]
+}
+
+func (m *MdnsManager) provider() api.MdnsProviderInterface {
+	m.muxSetup.Lock()
+	defer m.muxSetup.Unlock()
+
+	return m.mdnsProvider
+}
+
+func (m *MdnsManager) setProvider(provider api.MdnsProviderInterface) {
+	m.muxSetup.Lock()
+	defer m.muxSetup.Unlock()
+
+	m.mdnsProvider = provider
+}
+
+func (m *MdnsManager) reportCallback() api.MdnsReportInterface {
+	m.muxSetup.Lock()
+	defer m.muxSetup.Unlock()
+
+	return m.report
+}
+
+func (m *MdnsManager) setReportCallback(cb api.MdnsReportInterface) {
+	m.muxSetup.Lock()
+	defer m.muxSetup.Unlock()
+
+	m.report = cb
+}
+
+func (m *MdnsManager) isAutoAccept() bool {
+	m.muxSetup.Lock()
+	defer m.muxSetup.Unlock()
+
+	return m.autoaccept
 }
 
 // Create a new mDNS manager
@@ -177,24 +213,24 @@ func (m *MdnsManager) Start(cb api.MdnsReportInterface) error {
 		// First try avahi, if not available use zerconf
 		provider := NewAvahiProvider(ifaceIndexes)
 		if provider.Start(false, m.processMdnsEntry) {
-			m.mdnsProvider = provider
+			m.setProvider(provider)
 		} else {
 			provider.Shutdown()
 
 			// Avahi is not availble, use Zeroconf
-			m.mdnsProvider = NewZeroconfProvider(ifaces)
-			if !m.mdnsProvider.Start(false, m.processMdnsEntry) {
+			m.setProvider(NewZeroconfProvider(ifaces))
+			if !m.provider().Start(false, m.processMdnsEntry) {
 				return errors.New("No mDNS provider available")
 			}
 		}
 	case MdnsProviderSelectionAvahiOnly:
 		// Only use Avahi
-		m.mdnsProvider = NewAvahiProvider(ifaceIndexes)
-		_ = m.mdnsProvider.Start(true, m.processMdnsEntry)
+		m.setProvider(NewAvahiProvider(ifaceIndexes))
+		_ = m.provider().Start(true, m.processMdnsEntry)
 	case MdnsProviderSelectionGoZeroConfOnly:
 		// Only use Zeroconf
-		m.mdnsProvider = NewZeroconfProvider(ifaces)
-		_ = m.mdnsProvider.Start(true, m.processMdnsEntry)
+		m.setProvider(NewZeroconfProvider(ifaces))
+		_ = m.provider().Start(true, m.processMdnsEntry)
 	}
 
 	// on startup always start mDNS announcement
@@ -202,7 +238,7 @@ func (m *MdnsManager) Start(cb api.MdnsReportInterface) error {
 		return err
 	}
 
-	m.report = cb
+	m.setReportCallback(cb)
 
 	// catch signals
 	go func() {
@@ -222,12 +258,13 @@ func (m *MdnsManager) Shutdown() {
 	m.shutdownOnce.Do(func() {
 		m.UnannounceMdnsEntry()
 
-		if m.mdnsProvider == nil {
+		provider := m.provider()
+		if provider == nil {
 			return
 		}
 
-		m.mdnsProvider.Shutdown()
-		m.mdnsProvider = nil
+		provider.Shutdown()
+		m.setProvider(nil)
 	})
 }
 
@@ -235,7 +272,8 @@ func (m *MdnsManager) Shutdown() {
 // A CEM service should always invoke this on startup
 // Any other service should only invoke this whenever it is not connected to a CEM service
 func (m *MdnsManager) AnnounceMdnsEntry() error {
-	if m.mdnsProvider == nil {
+	provider := m.provider()
+	if provider == nil {
 		return nil
 	}
 
@@ -249,7 +287,7 @@ func (m *MdnsManager) AnnounceMdnsEntry() error {
 		"brand=" + m.deviceBrand,
 		"model=" + m.deviceModel,
 		"type=" + m.deviceType,
-		"register=" + fmt.Sprintf("%v", m.autoaccept),
+		"register=" + fmt.Sprintf("%v", m.isAutoAccept()),
 	}
 
 	// SHIP Requirements for Installation Process V1.0.0
@@ -266,7 +304,7 @@ func (m *MdnsManager) AnnounceMdnsEntry() error {
 
 	serviceName := m.serviceName
 
-	if err := m.mdnsProvider.Announce(serviceName, m.port, txt); err != nil {
+	if err := provider.Announce(serviceName, m.port, txt); err != nil {
 		logging.Log().Debug("mdns: failure announcing service", err)
 		return err
 	}
@@ -281,11 +319,12 @@ func (m *MdnsManager) AnnounceMdnsEntry() error {
 
 // Stop the mDNS announcement on the network
 func (m *MdnsManager) UnannounceMdnsEntry() {
-	if !m.isServiceAnnounced() || m.mdnsProvider == nil {
+	provider := m.provider()
+	if !m.isServiceAnnounced() || provider == nil {
 		return
 	}
 
-	m.mdnsProvider.Unannounce()
+	provider.Unannounce()
 	logging.Log().Debug("mdns: stop announcement")
 
 	m.setIsServiceAnnounce(false)
@@ -306,7 +345,9 @@ func (m *MdnsManager) setIsServiceAnnounce(value bool) {
 }
 
 func (m *MdnsManager) SetAutoAccept(accept bool) {
+	m.muxSetup.Lock()
 	m.autoaccept = accept
+	m.muxSetup.Unlock()
 
 	// if announcement is off, don't enforce a new announcement
 	if !m.isServiceAnnounced() {
@@ -413,6 +454,11 @@ func (m *MdnsManager) copyMdnsEntriesForReport() (map[string]*api.MdnsEntry, uin
 // report the current entries asynchronously, one report at a time and
 // never an older list of entries after a newer one was reported
 func (m *MdnsManager) reportMdnsEntries(newEntries bool) {
+	report := m.reportCallback()
+	if report == nil {
+		return
+	}
+
 	entries, counter := m.copyMdnsEntriesForReport()
 
 	go func() {
@@ -424,7 +470,7 @@ func (m *MdnsManager) reportMdnsEntries(newEntries bool) {
 		}
 		m.reportDelivered = counter
 
-		m.report.ReportMdnsEntries(entries, newEntries)
+		report.ReportMdnsEntries(entries, newEntries)
 	}()
 }
 
@@ -595,7 +641,7 @@ func (m *MdnsManager) processMdnsEntry(elements map[string]string, name, host st
 		logging.Log().Debug("mdns: new - ski:", ski, "name:", name, "brand:", brand, "model:", model, "typ:", deviceType, "serial:", serial, "categories:", categoriesStr, "identifier:", identifier, "register:", register, "host:", host, "port:", port, "addresses:", addresses)
 	}
 
-	if m.report == nil || !updated {
+	if m.reportCallback() == nil || !updated {
 		return
 	}
 
@@ -603,7 +649,7 @@ func (m *MdnsManager) processMdnsEntry(elements map[string]string, name, host st
 }
 
 func (m *MdnsManager) RequestMdnsEntries() {
-	if m.report == nil {
+	if m.reportCallback() == nil {
 		return
 	}
 
